@@ -54,6 +54,7 @@ def base_outcome(case, res, extra_key=''):
                   'decisions': st['decisions'], 'threads': st['threads'],
                   'now_ms': int(round(st['now'] * 1000)),
                   'clock_jumps': st['clock_jumps'],
+                  'timeouts_fired': st.get('timeouts_fired', 0),
                   'path_' + path_name(case['desc']): 1},
         'pairs': [tuple(map(tuple, p)) for p in st['pairs']],
         'digest': parrun.digest_of(res),
